@@ -2994,3 +2994,29 @@ mod tests {
 		swap_htlcs!(small_htlc, big_htlc);
 	}
 }
+
+#[cfg(feature = "_verif")]
+#[allow(missing_docs)]
+pub mod verif_hooks {
+	use super::*;
+	fn channel_type(tag: u8) -> ChannelTypeFeatures {
+		match tag {
+			0 => ChannelTypeFeatures::only_static_remote_key(),
+			1 => ChannelTypeFeatures::anchors_zero_htlc_fee_and_dependencies(),
+			_ => ChannelTypeFeatures::anchors_zero_fee_commitments(),
+		}
+	}
+	pub fn commit_tx_fee_sat(feerate_per_kw: u32, num_htlcs: usize, tag: u8) -> u64 {
+		super::commit_tx_fee_sat(feerate_per_kw, num_htlcs, &channel_type(tag))
+	}
+	pub fn second_stage_tx_fees_sat(tag: u8, feerate: u32) -> (u64, u64) {
+		super::second_stage_tx_fees_sat(&channel_type(tag), feerate)
+	}
+	pub fn htlc_tx_fees_sat(feerate: u32, accepted: usize, offered: usize, tag: u8) -> u64 {
+		super::htlc_tx_fees_sat(feerate, accepted, offered, &channel_type(tag))
+	}
+	pub fn supports(tag: u8) -> (bool, bool) {
+		let t = channel_type(tag);
+		(t.supports_anchors_zero_fee_htlc_tx(), t.supports_anchor_zero_fee_commitments())
+	}
+}
